@@ -39,6 +39,7 @@ func c03(c *core.Ctx) map[string]interface{} {
 	r3pure(c)
 	r3seqof(c)
 	r3octets(c)
+	r3bits(c)
 	return map[string]interface{}{"ngap_types": len(s.Types)}
 }
 
